@@ -695,12 +695,18 @@ def compensators(ctx, run, results):
     run.oblige("C10.R3", "kou: exactly n marks per step are aggregated (columns k > n of [0 | marks] are reset to exp(0))", okm, detail_m)
     if not okm:
         run.fail(Finding("C10.R3", q, detail_m, "the number of jump marks aggregated in a step is not the sampled Poisson count", file=str(prog.modules[fi.module].path), line=fi.node.lineno))
-    # ---- antithetic normals
+    antithetic_rule(ctx, run)
+
+
+def antithetic_rule(ctx, run, rule="C10.R6"):
+    """randn_antithetic(N, T) is cat(z, -z)[:N] with z of ceil(N/2) rows: N rows for even and odd N alike"""
+    prog = ctx.prog
     fa = prog.functions.get("pfhedge.stochastic.random.randn_antithetic")
     if fa is None:
         raise AnalysisError("anchor vanished: randn_antithetic")
     res = [r for r in ctx.interp.explore(fa, [W.integer("N"), W.integer("T")], dict(dtype=Sym("dtype"), device=Sym("device"), shuffle=False)) if not r["raises"]]
     ok = False
+    why = "not of the form torch.cat((z, -z), dim=0)[:N]"
     if res:
         v = res[0]["value"]
         cats = _find(v, lambda x: isinstance(x, Op) and x.op == "cat")
@@ -717,14 +723,16 @@ def compensators(ctx, run, results):
                     Nsym = tsz.sym("N")
                     even, odd = sp.simplify(rows.subs(Nsym, 2 * kk)), sp.simplify(rows.subs(Nsym, 2 * kk + 1))
                     ok = even == kk and odd == kk + 1 and len(dims) == 2 and dims[1] == W.integer("T")
+                    if not ok:
+                        why = f"z has {even} rows for N = 2k and {odd} for N = 2k+1 (ceil(N/2) needed: cat(z, -z)[:N] has fewer than N rows otherwise)"
                 except (NotImplementedError, TypeError, IndexError):
                     ok = False
                 ok = ok and isinstance(v, Op) and v.op == "index" and v.args[1] in (slice(None, W.integer("N"), None), (slice(None, W.integer("N"), None),))
             else:
                 ok = False
-    run.oblige("C10.R6", "randn_antithetic == cat(z, -z)[:N] along dim 0 with z of ceil(N/2) rows", ok, "")
+    run.oblige(rule, "randn_antithetic == cat(z, -z)[:N] along dim 0 with z of ceil(N/2) rows", ok, "")
     if not ok:
-        run.fail(Finding("C10.R6", fa.qualname, "torch.cat((randn, -randn), dim=0)", "the second half of the sample must be the negative of the first", file=str(prog.modules[fa.module].path), line=fa.node.lineno))
+        run.fail(Finding(rule, fa.qualname, why, "the antithetic sample must be N rows, the second half the negative of the first", file=str(prog.modules[fa.module].path), line=fa.node.lineno))
 
 
 def exact_solutions(ctx, run):
@@ -1010,3 +1018,5 @@ def check(ctx, run):  # noqa: F811
     ctor_rule(ctx, run, "C10.R9", primary_classes(ctx.prog), None, "a model parameter the generator receives (self.<name>) is not the one the instrument was created with")
     from ..primaries import init_forwarding_rule
     init_forwarding_rule(ctx, run, "C10.R10")
+    from ..primaries import param_forwarding_rule
+    param_forwarding_rule(ctx, run, "C10.R10")
